@@ -151,7 +151,11 @@ def finish(ctx, t0, write=True, as_json=False):
     print('%s tier=%s obligations=%d discharged=%d known_findings=%d violations=%d wall=%.2fs' % (
         ctx.pid, ctx.tier, nob, ndis, len(kf), len(viol), wall))
     if viol:
-        for o in viol[:25]:
+        shown = set()
+        for o in viol:
+            if o['key'] in shown or len(shown) >= 25:
+                continue
+            shown.add(o['key'])
             print('  violated %s at %s: %s' % (o['key'], o['loc'], o['detail'][:300]))
         print('VIOLATION property=%s replay=%s' % (ctx.pid, replay))
         return 1
